@@ -125,6 +125,9 @@ from statham.serializers import serialize_json, serialize_python
 from statham.serializers.orderer import get_object_classes
 from statham.titles import title_labeller
 out = {}
+def interpreter_settings():
+    return [sys.getrecursionlimit(), sys.get_int_max_str_digits()]
+settings_at_start = interpreter_settings()
 for path in sys.argv[2:]:
     rec = {}
     try:
@@ -170,6 +173,8 @@ for path in sys.argv[2:]:
         rec["names_after_python"] = [c.__name__ for c in get_object_classes(*elements)]
     except Exception as exc:
         rec["json"] = "raises:" + type(exc).__name__
+    rec["interpreter_settings_changed"] = interpreter_settings() != settings_at_start and \
+        [settings_at_start, interpreter_settings()]
     out[path] = rec
 print(json.dumps(out))
 '''
@@ -316,6 +321,16 @@ def run_shard(ctx):
                 break
         if first.get("asm_same_names"):
             ctx.count("assembled.same_named_classes")
+        ctx.count("interpreter_settings.compared")
+        changed = [(label, rec["interpreter_settings_changed"]) for label, rec in recs.items()
+                   if rec.get("interpreter_settings_changed")]
+        if changed:
+            # what a later document of the same process produces depends on these settings (how deep a document
+            # may nest before it is refused, how large an integer may be written): leaving them changed makes
+            # the output a function of the process's history, not of the input document
+            ctx.witness("output_depends_on_process", {**case, "field": "interpreter_settings"},
+                        f"after this document the interpreter-wide settings [recursion limit, int_max_str_digits] "
+                        f"are left changed in process {changed[0][0]}: {changed[0][1]}")
         for field in ("py", "json", "names", "pe", "asm"):
             outputs = {}
             for label, rec in recs.items():
